@@ -57,3 +57,15 @@ Definition ex_prog : program :=
 Definition ex_trace : list event :=
   [(1,0); (5,0); (6,0); (2,1); (3,1); (4,1); (7,0); (8,0); (9,0); (2,1); (3,1); (4,1); (10,0);
    (9,0); (2,1); (3,1); (4,1); (10,0); (11,0); (12,0); (13,0)].
+
+(* The three-step session of the mixed-script examples of Properties/C18.v (statement starts inside functions only):
+
+     1 def g():
+     2     a = 1
+     3     return a
+     4 def f():
+     5     b = g()
+     6     c = b + 1
+     7     return c
+     8 f()                                                                                  *)
+Definition ex_nested_trace : list event := [(1,0); (4,0); (8,0); (5,1); (2,2); (3,2); (6,1); (7,1)].
